@@ -44,13 +44,14 @@ impl Property for C12 {
         "C12"
     }
     fn rule(&self) -> String {
-        "sessions over a root r.td that includes i.td, where disk texts and editor buffers differ observably (each variant of i.td declares a differently named class, each variant of r.td uses one buffer class and the disk class, so outline and 'class not found' diagnostics reveal which text was analysed). Events: open/change of r.td or i.td with one of two buffer variants (a change of an unopened document is an open), close of either document (the disk is the truth again; checked at the next analysed step), a touch of an unrelated third document (root of a workspace without r.td and i.td), a change of r.td to a text without its include, and didSave of either document (no effect on which text is the truth; the disk keeps differing from the buffer, as after an external rewrite): every sequence of length <= 4 (thorough <= 5) over the 4 (document, variant) events, 2 closes, 2 saves and the 2 workspace-leaving events exhaustively, each with i.td present on disk, with i.td never saved (no file on disk), and with an i.td that includes r.td back (include cycle through every edited document). Reference session model: texts = disk overlaid by the buffers of opened documents, root = last touched document. After every step the last published diagnostics of every file of the model's workspace and the documentSymbol answer of every open document in it must equal a fresh ide-level analysis over the model's texts. distinct = digest of the event sequence; non-trivial = a step at which an open included document's buffer differs from disk while the other document is (re)analysed".into()
+        "sessions over a root r.td that includes i.td, where disk texts and editor buffers differ observably (each variant of i.td declares a differently named class, each variant of r.td uses one buffer class and the disk class, so outline and 'class not found' diagnostics reveal which text was analysed). Events: open/change of r.td or i.td with one of two buffer variants (a change of an unopened document is an open), close of either document (the disk is the truth again; checked at the next analysed step), a touch of an unrelated third document (root of a workspace without r.td and i.td), a change of r.td to a text without its include, and didSave of either document (no effect on which text is the truth; the disk keeps differing from the buffer, as after an external rewrite): every sequence of length <= 4 (thorough <= 5) over the 4 (document, variant) events, 2 closes, 2 saves and the 2 workspace-leaving events exhaustively, each with i.td present on disk, with i.td never saved (no file on disk), and with an i.td that includes r.td back (include cycle through every edited document) and - sequences of length <= 3 (thorough <= 4) - in a workspace directory the editor reaches through a symbolic link. Reference session model: texts = disk overlaid by the buffers of opened documents, root = last touched document. After every step the last published diagnostics of every file of the model's workspace and the documentSymbol answer of every open document in it must equal a fresh ide-level analysis over the model's texts. distinct = digest of the event sequence; non-trivial = a step at which an open included document's buffer differs from disk while the other document is (re)analysed".into()
     }
     fn assumptions(&self) -> Vec<String> {
         vec!["the disk is never modified during a session; the model takes the last touched document as root because that is what didOpen/didChange do; a close triggers no analysis, so its effect is observed at the next open/change".into()]
     }
     fn families(&self, ctx: &Ctx) -> Vec<Family> {
         let maxlen = ctx.tier.pick(4usize, 5usize);
+        let symlinked_upto = ctx.tier.pick(3usize, 4usize);
         vec![Family::new("all-sessions", 4, move |first, _r, emit| {
             for len in 1..=maxlen {
                 let mut idx = vec![0usize; len];
@@ -81,6 +82,11 @@ impl Property for C12 {
                     if !emit(json!({"kind": "buffer-session", "events": ev, "cyclic": true})) {
                         return;
                     }
+                    // the same session in a workspace the editor reaches through a symbolic link (the
+                    // document URIs spell the link, the files live elsewhere)
+                    if len <= symlinked_upto && !emit(json!({"kind": "buffer-session", "events": ev, "symlinked": true})) {
+                        return;
+                    }
                     let mut k = len;
                     let mut done = false;
                     loop {
@@ -105,7 +111,8 @@ impl Property for C12 {
     }
     fn run_case(&self, _ctx: &Ctx, case: &Case) -> Verdict {
         let Some(events) = case["events"].as_array() else { return Verdict::Skip("malformed-case") };
-        let Some(mut s) = LspSession::start() else { return Verdict::Skip("initialize-failed") };
+        let tw = if case["symlinked"].as_bool() == Some(true) { crate::lspc::TempWs::new_symlinked() } else { crate::lspc::TempWs::new() };
+        let Some(mut s) = LspSession::start_in(tw) else { return Verdict::Skip("initialize-failed") };
         let no_disk_i = case["no_disk_i"].as_bool() == Some(true);
         let cyclic = case["cyclic"].as_bool() == Some(true);
         let disk_i = if cyclic { DISK_I_CYCLIC } else { DISK_I };
